@@ -52,6 +52,7 @@ var (
 	fDump     = flag.Bool("dump", false, "with -runseed: print the scenario")
 	fEventLog = flag.String("eventlog", "", "worker: append one line per run (determinism self-test)")
 	fCPUProf  = flag.String("cpuprofile", "", "worker: write a CPU profile")
+	fUnfold   = flag.String("unfolding", "", "print the model's unfolding size of the world of a scenario file (diagnostic)")
 )
 
 func main() {
@@ -64,7 +65,7 @@ func main() {
 		lim.Cur, lim.Max = 12<<30, 12<<30
 		_ = syscall.Setrlimit(syscall.RLIMIT_AS, &lim)
 	}
-	for _, pth := range []*string{fReplay, fSingleOp, fOut, fVerifDir, fEventLog, fCPUProf} {
+	for _, pth := range []*string{fReplay, fSingleOp, fOut, fVerifDir, fEventLog, fCPUProf, fUnfold} {
 		if *pth != "" {
 			if a, err := filepath.Abs(*pth); err == nil {
 				*pth = a
@@ -84,6 +85,19 @@ func main() {
 	props.SelfExe, _ = os.Executable()
 	props.VerifDir = *fVerifDir
 	props.LoadKnownFindings(filepath.Join(*fVerifDir, "known_findings.json"))
+	if *fUnfold != "" {
+		b, err := os.ReadFile(*fUnfold)
+		if err != nil {
+			os.Exit(2)
+		}
+		var sc props.Scenario
+		if json.Unmarshal(b, &sc) != nil || sc.World == nil {
+			os.Exit(2)
+		}
+		w := sc.World
+		fmt.Printf("nodes=%d unfolding(cap 20M)=%d\n", w.CountNodes(), w.Unfolding(w.RootNode(), false, 20000000))
+		os.Exit(0)
+	}
 	switch {
 	case *fSingleOp != "":
 		os.Exit(props.SingleOpMain(*fSingleOp))
